@@ -30,6 +30,7 @@ import (
 	"net"
 	"reflect"
 	"regexp"
+	"runtime"
 	"sort"
 	"strconv"
 	"strings"
@@ -1056,8 +1057,23 @@ func negoReplay(ctx *Ctx, l string) {
 	runNegoCase(ctx, nc)
 }
 
+// cliGoroutines records how many goroutines outlive an engine run (clients and pipes are all closed).
+func cliGoroutines(ctx *Ctx, base int) {
+	n := runtime.NumGoroutine()
+	for i := 0; i < 40 && n > base; i++ {
+		time.Sleep(50 * time.Millisecond)
+		n = runtime.NumGoroutine()
+	}
+	if n > base {
+		ctx.Res.Count(fmt.Sprintf("goroutines-left-behind=%d", n-base))
+	} else {
+		ctx.Res.Count("goroutines-left-behind=0")
+	}
+}
+
 func runNego(ctx *Ctx) {
 	cliQuiet()
+	defer cliGoroutines(ctx, runtime.NumGoroutine())
 	if len(ctx.Replay) > 0 {
 		for _, l := range ctx.Replay {
 			negoReplay(ctx, l)
@@ -1759,6 +1775,7 @@ func respTables(ctx *Ctx) {
 
 func runResp(ctx *Ctx) {
 	cliQuiet()
+	defer cliGoroutines(ctx, runtime.NumGoroutine())
 	env := &respEnv{ctx: ctx}
 	defer env.close()
 	if len(ctx.Replay) > 0 {
